@@ -66,8 +66,16 @@ def check_msg(d, frozen=False):
                 r2.time = 5150
                 if r.time == 5150 and m.time != 5150:
                     out.append(fail('str-shared', f'objects parsed from {s!r} share state', type=t))
-            if mido.parse_string(s) != m or mido.format_as_string(m) != s:
+            p1 = mido.parse_string(s)
+            if p1 != m or mido.format_as_string(m) != s:
                 out.append(fail('str-api', f'parse_string/format_as_string disagree for {m!r}', type=t))
+            else:
+                # what parse_string returned belongs to the caller (round 13: an lru_cache around it): the same text
+                # parsed again after the first result was edited is the message the text describes
+                p1.time = 6160
+                p2 = mido.parse_string(s)
+                if p2 is p1 or (p2 != m and m.time != 6160):
+                    out.append(fail('str-shared', f'parse_string({s!r}) after editing the earlier result: {p2!r}', type=t))
         except Exception as exc:  # noqa: BLE001
             out.append(fail('str-roundtrip', f'{m!r}: {exc!r}', type=t, exc=exc_sig(exc)))
         try:
@@ -77,6 +85,15 @@ def check_msg(d, frozen=False):
                 out.append(fail('dict-roundtrip', f'{m!r} -> {dd!r} -> {r!r}', type=t))
             if 'data' in dd and type(dd['data']) is not list:
                 out.append(fail('dict-data-type', f'dict() data is {type(dd["data"]).__name__}', type=t))
+            # the dict is a copy: editing it does not edit the message (round 13: dict() handing out vars(self))
+            before = dict(vars(m))
+            dd['time'] = 7170
+            for k in list(dd):
+                if k not in ('type', 'time'):
+                    dd[k] = [99] if k == 'data' else 'scribble'
+            if dict(vars(m)) != before:
+                out.append(fail('dict-aliased', f'editing the result of dict() changed the message: {vars(m)!r}', type=t))
+                vars(m).update(before)
         except Exception as exc:  # noqa: BLE001
             out.append(fail('dict-roundtrip', f'{m!r}: {exc!r}', type=t, exc=exc_sig(exc)))
     try:
